@@ -72,6 +72,13 @@ def generate(rng, tier):
             neck, nd = 0.0, 0.0
         tx, ty, alt = pick_c(rng), pick_c(rng), pick_c(rng)
         sx, sy, sz = pick_c(rng), pick_c(rng), pick_c(rng)
+        if i % 23 == 0:
+            # a target exactly at the origin (x = y = 0, also as -0.0) is a target like any other; so is altitude 0
+            tx, ty = rng.choice([(0.0, 0.0), (-0.0, 0.0), (0.0, -0.0)])
+            if i % 46 == 0:
+                alt = 0.0
+            if sx == 0 and sy == 0:
+                sx = 1234.0
         syaw = rng.choice([0.0, 90.0, -45.5, 359.9, 720.0])
         vals = [tm, dur, tx, ty, alt, pre, post, neck, nd, sx, sy, sz, syaw]
         nt = (dur > 60 or pre > 60 or post > 60 or tm > 60) if all(v == v for v in (dur, pre, post, tm)) else False
